@@ -34,15 +34,18 @@ func corrRest(seed uint64, n int, t tools, id *int) {
 			if i%12 == 5 {
 				addGap(r, &fs)
 			}
-			if i%9 == 4 && !fs.optimize {
+			if i%9 == 4 && fs.defaults == 0 && fs.extra == 0 {
 				fs.noInit = true
+			}
+			if i%7 == 2 && !fs.noInit {
+				fs.extra = r.Range(1, 3) // a second traf in every moof; the tool works on the first
 			}
 			res := runReseg(fs, d, t)
 			obs := res.class
 			if res.class == "ok" {
 				obs = "ok:" + countsString(res.segs)
 			}
-			fmt.Fprintf(out, "R\tr%d\t%d\t%s\t%s\n", *id, d, modelSamples(res.input), obs)
+			fmt.Fprintf(out, "R\tr%d\t%d\t%s\t%s\n", *id, d, structureOf(fs, res.input), obs)
 			*id++
 		}
 	}
@@ -316,8 +319,11 @@ func searchRest(seed uint64, n int, t tools, evals *int, outcomes map[string]int
 			if i%12 == 5 {
 				addGap(r, &fs)
 			}
-			if i%9 == 4 && !fs.optimize {
+			if i%9 == 4 && fs.defaults == 0 && fs.extra == 0 {
 				fs.noInit = true
+			}
+			if i%7 == 2 && !fs.noInit {
+				fs.extra = r.Range(1, 3)
 			}
 			outcomes["reseg:"+checkReseg(fs, genResegD(r, fs), t, evals)]++
 		}
@@ -337,6 +343,9 @@ func searchRest(seed uint64, n int, t tools, evals *int, outcomes map[string]int
 		if i%12 == 5 {
 			addGap(r, &fs)
 		}
+		if i%7 == 2 {
+			fs.extra = r.Range(1, 3)
+		}
 		outcomes["fragy:"+checkFragmentify(fs, genFragyDur(r, fs), evals)]++
 	}
 	if t.combine != "" {
@@ -353,6 +362,8 @@ func fixedResegWitnesses() []string {
 	return []string{
 		// decode-time gap between two input fragments, both sides in one output segment (recorded finding C11-F3)
 		"reseg|d=1000|v=1,ts=1000,styp=1,opt=0,tid=1,segs=2.2,samples=0:40:0:2000000:5/40:40:0:10000:6/500:40:0:10000:7/540:40:0:10000:3",
+		// two truns per traf in every input fragment, three output segments
+		"reseg|d=160|v=1,ts=1000,styp=1,opt=0,tid=1,segs=2+2.1+3/2+2,samples=0:40:0:2000000:5/40:40:0:10000:6/80:40:0:10000:7/120:40:0:10000:3/160:40:0:2000000:5/200:40:0:10000:6/240:40:0:10000:7/280:40:0:10000:3/320:40:0:2000000:5/360:40:0:10000:6/400:40:0:10000:7/440:40:0:10000:3",
 		// first sample already beyond the first boundary: an empty first segment, then everything
 		"reseg|d=10|v=1,ts=1000,styp=1,opt=0,tid=1,segs=3,samples=100:40:0:2000000:5/140:40:0:10000:6/180:40:0:2000000:7",
 		// fragmented input that does not start its segments with styp
